@@ -65,14 +65,15 @@ Same(a, b) == a.outcome = "ok" /\ b.outcome = "ok" /\ Norm(a.abs) = Norm(b.abs)
 PropC09(e) == e.ev = "fill" =>
   LET t == e.tmpl.abs
       exp == Subst(t, e.sigma)
-      ok == FillOK(t, e.sigma, TRUE)
-      okDirect == FillOK(t, e.sigma, FALSE) IN     \* a literal ASCII item has no length bounds of its own
+      \* (a string filled into a variable of an array item renames it: the names must stay distinct)
+      ok == FillOK(t, e.sigma, TRUE) /\ NoDup(Vars(exp))
+      okDirect == FillOK(t, e.sigma, FALSE) /\ NoDup(Vars(exp)) IN     \* a literal ASCII item has no length bounds of its own
   \* a fill-in value outside the domain is refused, by the fill exactly as by the constructor
   /\ e.once.outcome = (IF ok THEN "ok" ELSE "refused")
   /\ e.steps.outcome = e.once.outcome
   /\ e.direct.outcome = (IF okDirect THEN "ok" ELSE "refused")
   /\ ok => /\ Norm(e.once.abs) = Norm(exp)                           \* pure substitution, unknown keys ignored
-           /\ e.once.vars = RemainingVars(t, e.sigma)                 \* unmentioned variables remain, in order
+           /\ e.once.vars = Vars(exp)                                 \* unmentioned variables remain, in order (a renamed one under its new name)
            /\ Same(e.once, e.steps) /\ Same(e.once, e.direct)         \* several steps = once = built directly
            /\ (RemainingVars(t, e.sigma) = <<>> =>
                  e.msgfill.outcome = "ok" /\ e.msgdirect.outcome = "ok" /\ e.msgfill.bytes # <<>>
